@@ -429,8 +429,18 @@ def run_refresh(case):
                 return c
             out.append([int(q.question[0].rdtype), s, s2, c.code, dump_zone(z, rel)])
     finally:
+        snap = None
         if pinned is not None:
+            # the snapshot a reader holds must not be affected by the transfers applied meanwhile
+            snap = []
+            for name, rds in pinned.iterate_rdatasets():
+                t_, cv_ = int(rds.rdtype), int(rds.covers)
+                snap.append([_name_id[name.derelativize(ORIGIN)], t_, cv_, int(rds.ttl),
+                             sorted(rd_id(t_, cv_, rd, rel) for rd in rds)])
+            snap.sort(key=lambda e: (e[0], e[1], e[2]))
             pinned.rollback()
+    if snap is not None and snap != z0:
+        return Err(961, "the content seen by a reader opened before the transfers changed")
     return out
 
 
